@@ -27,6 +27,15 @@ import (
 
 const verifDir = "/verif"
 
+// harnessDir is the harness overlaid on the tree under test (VERIF_HARNESS lets
+// a long regression run use a snapshot while the harness is being edited).
+func harnessDir() string {
+	if d := os.Getenv("VERIF_HARNESS"); d != "" {
+		return d
+	}
+	return verifDir + "/harness"
+}
+
 var repoDir = func() string {
 	if d := os.Getenv("VERIF_REPO"); d != "" {
 		return d // a scratch worktree (regression runs over seeded changes); default is /repo
@@ -184,7 +193,7 @@ func prepareScratch(stmt bool) string {
 		os.RemoveAll(dir)
 		die2("copy tree: %v %s", err, out)
 	}
-	if out, err := run("", nil, "rsync", "-a", "--exclude", "go.mod", "--exclude", "go.sum", "--exclude", "*_test.go", verifDir+"/harness/", dir+"/verifsim/"); err != nil {
+	if out, err := run("", nil, "rsync", "-a", "--exclude", "go.mod", "--exclude", "go.sum", "--exclude", "*_test.go", harnessDir()+"/", dir+"/verifsim/"); err != nil {
 		os.RemoveAll(dir)
 		die2("overlay harness: %v %s", err, out)
 	}
@@ -202,7 +211,7 @@ func prepareScratch(stmt bool) string {
 		}
 	}
 	// white-box harness files inside gmsm packages (optional: dropped if the tree no longer builds with them)
-	inpkg := filepath.Join(verifDir, "harness", "inpkg")
+	inpkg := filepath.Join(harnessDir(), "inpkg")
 	filepath.Walk(inpkg, func(path string, info os.FileInfo, err error) error {
 		if err != nil || info.IsDir() || !strings.HasSuffix(path, ".go") {
 			return nil
@@ -214,7 +223,7 @@ func prepareScratch(stmt bool) string {
 	})
 	os.RemoveAll(filepath.Join(dir, "verifsim", "inpkg"))
 	// extra requirements of the harness
-	extra := filepath.Join(verifDir, "harness", "extra_requires.txt")
+	extra := filepath.Join(harnessDir(), "extra_requires.txt")
 	if b, err := os.ReadFile(extra); err == nil {
 		for _, ln := range strings.Split(string(b), "\n") {
 			ln = strings.TrimSpace(ln)
@@ -226,7 +235,7 @@ func prepareScratch(stmt bool) string {
 				die2("go mod edit: %v %s", err, out)
 			}
 		}
-		if sum, err := os.ReadFile(filepath.Join(verifDir, "harness", "extra_go.sum")); err == nil {
+		if sum, err := os.ReadFile(filepath.Join(harnessDir(), "extra_go.sum")); err == nil {
 			f, _ := os.OpenFile(filepath.Join(dir, "go.sum"), os.O_APPEND|os.O_WRONLY, 0644)
 			f.Write(sum)
 			f.Close()
@@ -247,7 +256,7 @@ func buildWorker(dir string, race bool) string {
 	if err != nil {
 		// retry without the white-box files (an edited tree may have renamed what they touch)
 		removed := false
-		inpkg := filepath.Join(verifDir, "harness", "inpkg")
+		inpkg := filepath.Join(harnessDir(), "inpkg")
 		filepath.Walk(inpkg, func(path string, info os.FileInfo, e error) error {
 			if e != nil || info.IsDir() || !strings.HasSuffix(path, ".go") {
 				return nil
